@@ -11,6 +11,7 @@ import (
 )
 
 // C21: Coordinate.DistanceTo on pairs of coordinates.
+//   law <x> <y>  => bits of x+y, y+x, (x-y)*(x-y), (y-x)*(y-x)
 //   dist <coordA> <coordB>  => ns <d(a,b)> <d(b,a)> | panic-dim      (a direction that panicked prints panic-dim / panic-other in place of its number)
 // Coordinates are written as in C20 (math.Float64bits in hex).
 
@@ -40,6 +41,18 @@ func c21Exec(ops []string) []string {
 	outs := make([]string, 0, len(ops))
 	for _, o := range ops {
 		f := strings.Fields(o)
+		if len(f) == 3 && f[0] == "law" {
+			// the two IEEE-754 facts behind C21_symm (CommLaws), sampled on the real float64 arithmetic
+			x, ok1 := c20parseF(f[1])
+			y, ok2 := c20parseF(f[2])
+			if !ok1 || !ok2 {
+				outs = append(outs, "bad-op")
+				continue
+			}
+			d1, d2 := x-y, y-x
+			outs = append(outs, c20f(x+y)+" "+c20f(y+x)+" "+c20f(d1*d1)+" "+c20f(d2*d2))
+			continue
+		}
 		if len(f) != 3 || f[0] != "dist" {
 			outs = append(outs, "bad-op")
 			continue
@@ -53,6 +66,16 @@ func c21Exec(ops []string) []string {
 		outs = append(outs, c21dist(a, b))
 	}
 	return outs
+}
+
+// c21raw: the unadjusted distance in the former association order ((m + ha) + hb), used only to aim at the guard
+func c21raw(a, b *coordinate.Coordinate) float64 {
+	s := 0.0
+	for i := range a.Vec {
+		d := a.Vec[i] - b.Vec[i]
+		s += d * d
+	}
+	return math.Sqrt(s) + a.Height + b.Height
 }
 
 func c21Gen(rng *rand.Rand, tier string) []Case {
@@ -147,6 +170,27 @@ func c21Gen(rng *rand.Rand, tier string) []Case {
 				}
 			case 2:
 				b = &coordinate.Coordinate{Vec: append([]float64{}, a.Vec...), Error: a.Error, Adjustment: a.Adjustment, Height: a.Height}
+			case 5, 6:
+				// the adjusted distance is within a rounding error of 0.0: b's adjustment cancels raw + a's adjustment as
+				// computed in one association order (the input class of the repaired defect 4a3f085), +/- one ulp
+				if dimB == dim {
+					b.Vec = append([]float64{}, a.Vec...)
+					if rng.Intn(2) == 0 {
+						b.Vec[0] = a.Vec[0] + sym(0.01)
+					}
+					raw := c21raw(a, b)
+					a.Adjustment = -rng.Float64() * raw
+					b.Adjustment = -(raw + a.Adjustment)
+					switch rng.Intn(4) {
+					case 0:
+						b.Adjustment = math.Nextafter(b.Adjustment, 0)
+					case 1:
+						b.Adjustment = math.Nextafter(b.Adjustment, -1e9)
+					case 2:
+						b.Adjustment = -raw - a.Adjustment
+					}
+					tags["guard-boundary"] = true
+				}
 			case 3:
 				// the adjusted distance is exactly 0.0 (the guard's boundary): same position, adjustment = -height
 				a.Adjustment = -a.Height
@@ -176,6 +220,30 @@ func c21Gen(rng *rand.Rand, tier string) []Case {
 		}
 		out = append(out, Case{ID: fmt.Sprintf("d%d", i), Ops: ops, Nontrivial: nt >= 10, Tags: tl})
 	}
+	// law sampling: every pair of the adversarial palette, plus random pairs of mixed magnitudes
+	var lops []string
+	for _, x := range c20Adversarial {
+		for _, y := range c20Adversarial {
+			lops = append(lops, "law "+c20fin(x)+" "+c20fin(y))
+		}
+	}
+	out = append(out, Case{ID: "laws-palette", Ops: lops, Nontrivial: true, Tags: []string{"laws"}})
+	nl := 40
+	if tier == "thorough" {
+		nl = 2000
+	}
+	for i := 0; i < nl; i++ {
+		var ops []string
+		for j := 0; j < 50; j++ {
+			x := (rng.Float64()*2 - 1) * math.Pow(10, float64(rng.Intn(40)-20))
+			y := (rng.Float64()*2 - 1) * math.Pow(10, float64(rng.Intn(40)-20))
+			if rng.Intn(4) == 0 {
+				y = math.Nextafter(x, y)
+			}
+			ops = append(ops, "law "+c20fin(x)+" "+c20fin(y))
+		}
+		out = append(out, Case{ID: fmt.Sprintf("laws%d", i), Ops: ops, Nontrivial: true, Tags: []string{"laws"}})
+	}
 	return out
 }
 
@@ -184,7 +252,7 @@ func init() {
 		ID: "C21",
 		Rule: "25 pairs per case; dimension 8 (2/3) or 1-8; components uniform in ±m or exactly 0, ±m with m from {0.2, 1e-3, 100, 1e4} s, heights in [0, m], adjustments in ±m/10; " +
 			"15% with strongly negative adjustments (guard branch), 10% with huge adjustments (1e5 … 1e300 s), 10% with an adversarial value (NaN, ±Inf, 1e308, subnormals, negative heights: outside the property's scope, compared bit for bit only), " +
-			"1/15 with a different dimension on the right, 1/20 each: same position, one ulp apart, identical coordinate, adjusted distance exactly 0 (adjustment = -height at the same position). Both d(a,b) and d(b,a) are taken from the real code. " +
+			"1/15 with a different dimension on the right, 1/10: adjusted distance within one rounding error of the guard threshold 0 (b's adjustment cancels raw + a's adjustment, ±1 ulp); 1/20 each: same position, one ulp apart, identical coordinate, adjusted distance exactly 0 (adjustment = -height at the same position). Both d(a,b) and d(b,a) are taken from the real code. Plus `law x y` ops sampling x+y = y+x and (x-y)^2 = (y-x)^2 on float64 (all pairs of a 32-value adversarial palette and random pairs over 40 decades). " +
 			"non-trivial = at least 10 in-scope pairs in the case; distinct = distinct op sequence",
 		Gen:  c21Gen,
 		Exec: c21Exec,
